@@ -8,6 +8,7 @@ import GocoinV.Proofs.C19Effects
 import GocoinV.Proofs.C19Reopen
 import GocoinV.Proofs.C19Run
 import GocoinV.Proofs.C19Crash
+import GocoinV.Proofs.C19Run2
 import GocoinV.Gen.QdbFacts
 namespace GocoinV.Props.C19
 open GocoinV GocoinV.Qdb GocoinV.QdbSpec GocoinV.Proofs.C19
@@ -258,7 +259,7 @@ theorem qdb_durable_sync_partial (load : Bool) (opts : Opts) (ops : List Op)
   rw [habs0] at habs
   have hR0 : DirReadable db.fs := fun kr hkr => ⟨inv.dflags kr hkr, inv.dreads kr hkr⟩
   obtain ⟨_, hold⟩ := open_readable db.fs hR0 vol' opts'
-  obtain ⟨L, hL, invL, absL, pL, _, _, _, hfsL⟩ := sync_logWritten db inv hp hsz.1
+  obtain ⟨L, hL, invL, absL, pL, _, _, _, hfsL, _⟩ := sync_logWritten db inv hp hsz.1
   refine ⟨?_, ?_, L, hL, hfsL⟩
   · intro n hn
     obtain ⟨hR, hV⟩ := sync_prefix db inv n hn
@@ -293,11 +294,56 @@ example :
   · decide
   · decide
 
--- OPEN: qdb_durable in full — the same for crashes inside defrag() / writedatfile() / cleanupold() (the new
---   snapshot becomes valid with one Write as long as it is smaller than the 1 MiB bufio buffer; for larger
---   indexes a prefix of the snapshot could in principle end in bytes that look like the FFFFFFFF-seq-FINI trailer),
---   for volatile stores, NO_CACHE records, and for histories containing earlier crashes/reopens. Those crash
---   points are covered only by the harness (every vhook.Point x hit of every generated run).
+/-- Durability across a crash anywhere inside defrag() (forced or automatic, incl. writedatfile and cleanupold).
+    Take any reachable state of a non-volatile store (empty directory, cached-sub-language history, side
+    conditions as above; additionally the data-file sequence number does not wrap and the index snapshot —
+    16 + 24 bytes per record — fits the 1 MiB bufio buffer, i.e. at most 43 689 records, so that it reaches its
+    file with one Write). Let `es` be the file operations defrag() performs (new data file and its contents in
+    whatever chunks bufio produces, new index file, its contents, removal of the log, of the old index file and
+    of the unused data files). Then for EVERY n the directory that exists after the first n of them reopens
+    (LoadData) without failure and, for ALL keys at once, it holds either the content the directory had before
+    defrag() — the last synced values — or the complete in-memory content. Never a mixture, never a value that
+    was not written. -/
+theorem qdb_durable_defrag_partial (load : Bool) (opts : Opts) (ops : List Op)
+    (ok : ∀ op ∈ ops, OpOK op) (fits : RunFits (openDB {} false load opts) ops)
+    (hsz : SizeOK (run (openDB {} false load opts) ops))
+    (hseq : (run (openDB {} false load opts) ops).dataSeq + 1 < 2^32)
+    (hsmall : 16 + 24 * (run (openDB {} false load opts) ops).index.length ≤ bufSize)
+    (vol' : Bool) (opts' : Opts) :
+    let db := run (openDB {} false load opts) ops
+    ∃ es, (defrag db).effs = db.effs ++ es ∧ ∀ n,
+      (openDB (db.fs.applyAll ((es.map (·.2)).take n)) vol' true opts').failed = none ∧
+      ((∀ k, (ilookup k (openDB (db.fs.applyAll ((es.map (·.2)).take n)) vol' true opts').index).map valOf =
+             (ilookup k (openDB db.fs vol' true opts').index).map valOf) ∨
+       (∀ k, (ilookup k (openDB (db.fs.applyAll ((es.map (·.2)).take n)) vol' true opts').index).map valOf =
+             mget (mrun [] ops) k)) := by
+  intro db
+  have h3 : Inv3 db := run_inv3 ops _ (fresh_inv3 load opts) ok fits
+  obtain ⟨hc, habs⟩ := run_cached ops _ (fresh_inv load opts).cached ok
+  have habs0 : absv (openDB {} false load opts) = [] := by cases load <;> rfl
+  rw [habs0] at habs
+  have hready : DefragReady db := defragReady_of_inv3 db h3 hsz hseq (by
+    rw [snapBytes_length, layout_length]; exact hsmall)
+  obtain ⟨es, he, hall⟩ := defrag_prefix db hready
+  obtain ⟨_, hold⟩ := open_readable db.fs hready.readable vol' opts'
+  refine ⟨es, he, fun n => ?_⟩
+  obtain ⟨hR, hV⟩ := hall n
+  obtain ⟨o1, o2⟩ := open_readable _ hR vol' opts'
+  refine ⟨o1, ?_⟩
+  rcases hV with hV | hV
+  · exact Or.inl (fun k => by rw [o2 k, hV k, ← hold k])
+  · refine Or.inr (fun k => ?_)
+    have hm : mget (absv db) k = (ilookup k db.index).map valOf := by
+      unfold mget
+      rw [ilookup_absv, Option.map_map]
+      rfl
+    rw [o2 k, hV k, ← hm, habs]
+
+-- OPEN: qdb_durable in full — what is still missing for the statement of DESIGN §6: (i) index snapshots larger
+--   than the bufio buffer (a chunk boundary could in principle fall so that a prefix of the snapshot ends in bytes
+--   that look like the FFFFFFFF-seq-FINI trailer — see the report); (ii) volatile stores, NO_CACHE / not-loaded
+--   records; (iii) histories that already contain a crash or a reopen (needs the invariants re-established for
+--   the opened store); (iv) crashes inside NewDBExt's own clean-up. These are covered by the harness only.
 
 /-- non-vacuity of reopen_after_close_identity_partial: a two-record store -/
 example : IndexWF [(1, (newRec [1, 2, 3] 0)), (2 ^ 64 - 1, (newRec [] NO_BROWSE))] := by
